@@ -19,10 +19,26 @@ import traceback
 
 VERIF = os.path.dirname(os.path.dirname(os.path.abspath(__file__)))
 REPO = os.environ.get("VERIF_REPO", "/repo")
-COQ = os.path.join(VERIF, "coq")
-SCRATCH = os.path.join(VERIF, ".scratch")
-REPLAYS = os.path.join(VERIF, "replays")
-EVIDENCE = os.path.join(VERIF, "evidence")
+# VERIF_SANDBOX=<dir>: run against a private copy of the Coq tree and write evidence/replays
+# there (used for mutation experiments with VERIF_REPO=<copy of /repo>, so that the shared
+# /verif/coq build and /verif/evidence are not disturbed).
+SANDBOX = os.environ.get("VERIF_SANDBOX")
+if SANDBOX:
+    os.makedirs(SANDBOX, exist_ok=True)
+    if not os.path.isdir(os.path.join(SANDBOX, "coq")):
+        subprocess.check_call(["cp", "-a", os.path.join(VERIF, "coq"), os.path.join(SANDBOX, "coq")])
+    else:
+        # refresh sources (not build products) from /verif/coq
+        subprocess.call(["rsync", "-a", "--exclude", "Gen/", "--include", "*/", "--include", "*.v",
+                         "--include", "_CoqProject", "--exclude", "*",
+                         os.path.join(VERIF, "coq") + "/", os.path.join(SANDBOX, "coq") + "/"])
+    _ROOT = SANDBOX
+else:
+    _ROOT = VERIF
+COQ = os.path.join(_ROOT, "coq")
+SCRATCH = os.path.join(_ROOT, ".scratch")
+REPLAYS = os.path.join(_ROOT, "replays")
+EVIDENCE = os.path.join(_ROOT, "evidence")
 GUARD = "BEC2FORMAT_VERIF"
 NPROC = int(os.environ.get("VERIF_JOBS", str(os.cpu_count() or 4)))
 
@@ -565,6 +581,11 @@ def run_check(pid, tier, seed, replay=None):
     # 3./4. correspondence and search (run even when the proof is broken: they
     # look for the concrete failing input)
     model_ok = pr["ok"] or not str(pr.get("failed_at", "")).startswith(("Model/", "Base/", "Gen/"))
+    if not pr["ok"] and model_ok and getattr(mod, "MODEL_TARGETS", None):
+        # proofs broke but the executable model may still build: build it for the correspondence
+        rc, out, _ = coq_make(["-k"] + list(mod.MODEL_TARGETS))
+        if rc != 0:
+            model_ok = False
     for stage in ("correspondence", "search"):
         fn = getattr(mod, stage, None)
         if fn is None:
